@@ -248,6 +248,9 @@ func (e *Engine) havocAllHeap(st *State) {
 	if st.dry != nil {
 		st.dry.mod.all = true
 	}
+	if st.havocAll == "" {
+		st.havocAll = "an uncontracted call or `assigns everything`"
+	}
 	e.havocAlive(st)
 }
 
@@ -557,6 +560,9 @@ func (e *Engine) applyContract(st *State, fc *FuncContract, callee *ssa.Function
 	}
 	e.bindLets(post, fc)
 	for _, c := range fc.Ensures {
+		st.assume(e.evalBool(post, c))
+	}
+	for _, c := range fc.TrustedEnsures {
 		st.assume(e.evalBool(post, c))
 	}
 	return res
@@ -984,6 +990,10 @@ func (e *Engine) frameObligations(st *State, fr *Frame, class string, pos token.
 	}
 	locs, ok := e.frameLocs(st, fr)
 	if !ok {
+		return
+	}
+	if st.havocAll != "" {
+		e.oblige(st, class, pos, "*", "false")
 		return
 	}
 	for _, name := range sortedKeys(st.heap) {
